@@ -763,7 +763,7 @@ def unset(config: dict[str, Any], tag: str = "") -> None:
     )
 
 
-def collect(config: dict[str, Any], tag: str = "") -> None:
+def collect(config: dict[str, Any], tag: str = "") -> int:
     """
     Get a new test object (vm, root state) from a pool.
 
@@ -773,7 +773,7 @@ def collect(config: dict[str, Any], tag: str = "") -> None:
     ..todo:: With later refactoring of the root check implicitly getting a
         pool rool state, we can refine the parameters here.
     """
-    _reuse_tool_with_param_dict(
+    return _reuse_tool_with_param_dict(
         config,
         tag,
         {
@@ -788,14 +788,14 @@ def collect(config: dict[str, Any], tag: str = "") -> None:
     )
 
 
-def create(config: dict[str, Any], tag: str = "") -> None:
+def create(config: dict[str, Any], tag: str = "") -> int:
     """
     Create a new test object (vm, root state).
 
     :param config: command line arguments and run configuration
     :param tag: extra name identifier for the test to be run
     """
-    _reuse_tool_with_param_dict(
+    return _reuse_tool_with_param_dict(
         config,
         tag,
         {
@@ -810,14 +810,14 @@ def create(config: dict[str, Any], tag: str = "") -> None:
     )
 
 
-def clean(config: dict[str, Any], tag: str = "") -> None:
+def clean(config: dict[str, Any], tag: str = "") -> int:
     """
     Remove a test object (vm, root state).
 
     :param config: command line arguments and run configuration
     :param tag: extra name identifier for the test to be run
     """
-    _reuse_tool_with_param_dict(
+    return _reuse_tool_with_param_dict(
         config,
         tag,
         {
@@ -969,7 +969,7 @@ def _reuse_tool_with_param_dict(
     tag: str,
     param_dict: dict[str, str],
     tool: Callable[[Any], Any],
-) -> None:
+) -> int:
     """
     Reuse a previously defined tool with temporary updated parameter dictionary.
 
@@ -981,6 +981,6 @@ def _reuse_tool_with_param_dict(
     setup_dict = config["param_dict"].copy()
     config["param_dict"].update(param_dict)
     try:
-        tool(config, tag=tag)
+        return tool(config, tag=tag)
     finally:
         config["param_dict"] = setup_dict
